@@ -20,7 +20,8 @@ from attrs import Oracle
 from plain import abstract, make_sd, reorder_network
 
 RULE = ("base network (all families, n<=5 quick) x 5 presentations {rename, reorder, equivalent formulas, negated variable, "
-        "aeon/sbml text}; each fully expanded with seeds for all nodes; plus one sanitization case with illegal and colliding "
+        "aeon/sbml text}; names that are prefixes of each other in 40% of the renamings; strategies bfs/dfs/build/scc/block/minimal-space/attractor-seed; "
+        "each fully expanded with seeds for all nodes; plus one sanitization case with illegal and colliding "
         "names; non-trivial = the base diagram has at least 3 nodes and the presentation changes the variable order or a "
         "polarity; distinct by case hash")
 ASSUMPTIONS = ["E2/E5: AEON parsers for bnet/aeon/sbml and infer_valid_graph"]
